@@ -16,6 +16,9 @@ use fuel_vm::storage::{
 use std::borrow::Cow;
 use std::cell::RefCell;
 
+/// Largest slot range the simulated disk serves in one call.
+pub const MAX_SIM_RANGE: usize = 256;
+
 #[derive(Debug, Clone, PartialEq, Eq)]
 pub struct SimIoError {
     pub call: u64,
@@ -107,6 +110,7 @@ pub struct Recorder {
     /// From this ordinal on every call fails (crash) until cleared.
     pub crash_at: Option<u64>,
     pub errors_fired: u64,
+    pub range_refused: u64,
     pub reads: u64,
     pub writes: u64,
 }
@@ -652,6 +656,15 @@ impl InterpreterStorage for SimStorage {
     }
     fn contract_state_remove_range(&mut self, contract: &ContractId, start_key: &Bytes32, range: usize) -> Result<(), SimIoError> {
         self.tick(Table::State, Method::RemoveRange, Some(*contract), k32(start_key), Some(&(range as u64).to_be_bytes()))?;
+        if range > MAX_SIM_RANGE {
+            // The simulated disk refuses absurd ranges with an I/O error (deterministic in the
+            // arguments, so every replica sees the same refusal): under a schedule where range
+            // clears are free a wild program would otherwise keep the host busy for minutes.
+            let mut r = self.rec.borrow_mut();
+            r.errors_fired += 1;
+            r.range_refused += 1;
+            return Err(SimIoError { call: r.calls.saturating_sub(1) });
+        }
         self.inner.contract_state_remove_range(contract, start_key, range).unwrap();
         // shadow: the same U256 key walk as the specification (stops at the maximum key)
         let mut cur: [u8; 32] = **start_key;
